@@ -595,7 +595,8 @@ void check_instance(Inv& inv, instance_t& in, const std::string& what, bool is_t
     type_t t = in.uid.get_type();
     if (t.data == nullptr)
         inv.fail(nm + ": null type");
-    else if (t.size() != in.unbound)
+    else if ((t.get_kind() == INSTANCE || t.get_kind() == LSC_INSTANCE || t.get_kind() == PROCESS_SET) &&
+             t.size() != in.unbound)  // a closed process has type PROCESS over its locals instead
         inv.fail(nm + ": type arity " + std::to_string(t.size()) + " != unbound " + std::to_string(in.unbound));
 }
 
